@@ -306,8 +306,13 @@ static int do_derive(world_t *w, KSI_Signature *src, const sdesc *d, int kind, i
 			if (rc == KSI_OK) rc = KSI_SignatureBuilder_setAggregationChainStartLevel(b, (KSI_uint64_t)param);
 			/* the sequence the SDK's own block signer uses (KSI_SignatureBuilder_createSignatureWithAggregationChain does not hand the
 			 * start level to the builder it works on, so it only ever works for start level 0) */
-			if (rc == KSI_OK) rc = KSI_SignatureBuilder_appendAggregationChain(b, w->local[k]);
-			if (rc == KSI_OK) rc = KSI_SignatureBuilder_close(b, (KSI_uint64_t)param, out);
+			if (rc == KSI_OK && param == 0) {
+				/* start level 0: the one-call form that leaves the builder (and the signature it was opened from) reusable */
+				rc = KSI_SignatureBuilder_createSignatureWithAggregationChain(b, w->local[k], out);
+			} else {
+				if (rc == KSI_OK) rc = KSI_SignatureBuilder_appendAggregationChain(b, w->local[k]);
+				if (rc == KSI_OK) rc = KSI_SignatureBuilder_close(b, (KSI_uint64_t)param, out);
+			}
 			g_calls += 4;
 			KSI_SignatureBuilder_free(b);
 			KSI_AggregationHashChain_getAggregationTime(w->local[k], &t);
